@@ -761,6 +761,12 @@ class SimWorld:
                     kindf = "charged-but-complete" if len(rc.live_trades) > len(exp_live) else "live-but-not-charged"
                     odd = [t for t in trades if (t.id in rc.live_trades) != (t.id in exp_live)]
                     if odd and all(sum(1 for x in t.status_log if sname(x) == "COMPLETE") >= 1 and sname(t.status) == "COMPLETE" for t in odd) and kindf == "charged-but-complete":
+                        undelivered = {id(o) for pk in self.fw.handler_queue for o in getattr(pk, "_orders", ())}
+                        if all(any(id(o) in undelivered for o in t.orders) for t in odd):
+                            # an order added to a completed trade was voided / lapsed while its placement was still
+                            # in flight: the trade is released when that placement's response is processed
+                            self.classes.add("order-added-to-completed-trade-finished-before-its-placement-response")
+                            continue
                         kindf = "charged-but-complete,order-added-to-completed-trade-finished-before-its-placement-response"
                     self.fail("live-trade-mismatch", (kindf,), "runner context live trades %d, trades with a live order %d; trades: %s" % (
                         len(rc.live_trades), len(exp_live), [(sname(t.status), [sname(o.status) for o in t.orders]) for t in trades]))
